@@ -499,6 +499,8 @@ class Sched(object):
                 self._resume(p, exc=e)
                 return
             rel = self.rel(path)
+            # the file system is part of the state: a removal must show in the key
+            self.note_file(path)
             if rel in self.locks and not self._lock_present(rel):
                 holder = self.locks.pop(rel)
                 if holder != p.pid:
